@@ -138,13 +138,20 @@ def betweenWalk (c : Curve α P) (endSt : Station α P) (lastIndex : Nat) :
     else if decide (c.lengthAlong working ≤ c.lengthAlong endSt) && decide (endSt.index < next) then some pts
     else betweenWalk c endSt lastIndex fuel (c.atVertex next) wrap pts
 
+/-- `between_lengths`: the last vertex index the walk may visit (a closed curve repeats its first vertex) -/
+@[reducible] def Curve.betweenLastIndex (c : Curve α P) : Nat := if c.closed then c.count - 2 else c.count - 1
+
+/-- `between_lengths`: the request is ill posed (lengths closer than the tolerance, or inverted on an open curve) -/
+@[reducible] def Curve.betweenIllPosed (c : Curve α P) (l0 l1 : α) (wrap : Bool) : Bool :=
+  decide (sabs (l1 - l0) < c.tol) || (!c.closed && wrap)
+
 /-- `between_lengths`; the raw point list before the final `from_points` -/
 def Curve.betweenRaw (c : Curve α P) (l0 l1 : α) : Option (List P) :=
   match c.atLength l0, c.atLength l1 with
   | some start, some endSt =>
     let wrap := decide (c.lengthAlong endSt < c.lengthAlong start)
-    let lastIndex := if c.closed then c.count - 2 else c.count - 1
-    if decide (sabs (l1 - l0) < c.tol) || (!c.closed && wrap) then none
+    let lastIndex := c.betweenLastIndex
+    if c.betweenIllPosed l0 l1 wrap then none
     else
       match betweenWalk c endSt lastIndex (2 * c.count + 2) start wrap [] with
       | some pts =>
